@@ -240,9 +240,12 @@ impl<T: Types> FlushWorker<T> {
             return Ok(());
         }
 
+        // Sync before forgetting a file: if the sync fails, the file must stay
+        // tracked so that a later flush does not report success for data that
+        // was never synced.
         while files.len() > 1 {
-            let f = files.remove(0);
-            f.f.sync_data()?;
+            files[0].f.sync_data()?;
+            files.remove(0);
         }
 
         // The second last and before are all closed,
